@@ -228,7 +228,13 @@ def run_stages(pid, cfg, tier, seed, only=None, count=None):
                 if prev: fi.close()
         if r.returncode != 0:
             err = (r.stderr or b"").decode(errors="replace")[-1500:]
-            return None, "stage %d (%s) exited %d: %s" % (k, " ".join(st), r.returncode, err), outp
+            if st[0] == "harness" and only is None and k == max(i for i, s2 in enumerate(cfg["stages"]) if s2[0] == "harness"):
+                # the implementation side died (panic outside catch_unwind, abort, stack overflow): keep the complete
+                # case lines it wrote, find the case it died on, and go on with the cases before it
+                CRASH.clear()
+                CRASH.update(find_crash(cmd, outp, env, prev, r.returncode, err))
+            else:
+                return None, "stage %d (%s) exited %d: %s" % (k, " ".join(st), r.returncode, err), outp
         prev = outp
     # the case lines are the output of the last harness stage; verdicts are the last stage
     cases_file = None
@@ -236,6 +242,31 @@ def run_stages(pid, cfg, tier, seed, only=None, count=None):
         if st[0] == "harness":
             cases_file = os.path.join(work, "stage%d.out" % k)
     return (cases_file, prev), None, prev
+
+
+CRASH = {}
+
+
+def find_crash(cmd, outp, env, stdin_file, rc, err):
+    """after a harness stage exited non-zero: truncate its output to complete lines, locate the crashing case"""
+    data = open(outp, "rb").read()
+    cut = data.rfind(b"\n") + 1
+    open(outp, "wb").write(data[:cut])
+    last = -1
+    for line in data[:cut].split(b"\n"):
+        m = re.match(rb"#(\d+) ", line)
+        if m:
+            last = max(last, int(m.group(1)))
+    idx = last + 1
+    confirmed = False
+    try:
+        fi = open(stdin_file, "rb") if stdin_file else subprocess.DEVNULL
+        r = sh(cmd + ["--only", str(idx)], cwd=VERIF, env=env, stdin=fi, stdout=subprocess.DEVNULL, timeout=600)
+        confirmed = r.returncode != 0
+    except Exception:
+        pass
+    return {"index": idx, "rc": rc, "stderr": err, "confirmed": confirmed,
+            "replay": " ".join(cmd[:1] + [os.path.basename(cmd[0])] [:0] + cmd[1:]) + " --only %d" % idx}
 
 
 def use_alt_repo(path):
@@ -375,6 +406,12 @@ def main(argv):
             violations.append(("CORRESPONDENCE-BROKEN", "", "no cases were evaluated", False))
     if stage_err:
         violations.append(("CORRESPONDENCE-BROKEN", "", stage_err, False))
+    if CRASH:
+        cid = "#%d" % CRASH["index"]
+        violations.append(("PROP-FAIL", cid, "PROP-FAIL class=implementation-crash the implementation side exited with status %s on case %s "
+                           "(panic outside catch_unwind / abort / stack overflow)%s; replay: %s :: %s" % (
+                               CRASH["rc"], cid, "" if CRASH["confirmed"] else " [not reproduced in isolation]", CRASH["replay"],
+                               CRASH["stderr"][-300:].replace("\n", " ")), CRASH["confirmed"]))
     for what, msg in pr["broken"]:
         violations.append(("PROOF-BROKEN", "", "%s: %s" % (what, msg), False))
     for m in tmsgs:
